@@ -40,6 +40,8 @@ Record dopts : Type := mkOpts {
 Definition c_text : nat := 0.   Definition c_wg : nat := 1.     Definition c_ps : nat := 2.
 Definition c_bs : nat := 3.     Definition c_unitary : nat := 4. Definition c_loss : nat := 5.
 Definition c_swaps : nat := 6.  Definition c_group : nat := 7.  Definition c_herald : nat := 8.
+(* a primitive drawn at the height of mode i (waveguides, boxes, herald markers) records the mode *)
+Definition at_mode (k i : nat) : nat := k + 10 * S i.
 
 (* ---------------- Python list / builtin operations ---------------- *)
 Definition idx {A} (l : list A) (i : nat) : res A :=
@@ -132,7 +134,7 @@ Section Display.
   Definition emits (k cnt : nat) (s : dst) : dst := mkSt (xs s) (repeat k cnt ++ tr s).
   Definition setx (s : dst) (i : nat) (v : Z) : res dst := do l <- set_nth (xs s) i v; Ok (mkSt l (tr s)).
   (* self._add_wg(.., self.y_locations[i], ..) *)
-  Definition wg_at (cx : dctx) (s : dst) (i : nat) : res dst := do _ <- idx (d_ys cx) i; Ok (emit c_wg s).
+  Definition wg_at (cx : dctx) (s : dst) (i : nat) : res dst := do _ <- idx (d_ys cx) i; Ok (emit (at_mode c_wg i) s).
 
   (* for i, loc in enumerate(x_locations[a : b + 1]):
        if loc < xloc and i + a not in herald_modes: _add_wg(loc, y_locations[a + i], xloc - loc) *)
@@ -157,7 +159,7 @@ Section Display.
 
   (* _add_heralds *)
   Definition add_heralds (cx : dctx) (hin hout : dict) (s : dst) : res dst :=
-    let one s (m : nat) := do _ <- idx (d_ys cx) m; Ok (emit c_text (emit c_herald s)) in
+    let one s (m : nat) := do _ <- idx (d_ys cx) m; Ok (emit c_text (emit (at_mode c_herald m) s)) in
     do s1 <- foldM one (dkeys hin) s;
     foldM one (dkeys hout) s1.
 
@@ -166,9 +168,9 @@ Section Display.
     let phi := ppv (d_pe cx) (d_vals cx) v in
     do xloc <- idx (xs s) m;
     do _ <- idx (d_ys cx) m;
-    let s := emit c_text (emit c_ps (emit c_wg s)) in
+    let s := emit c_text (emit (at_mode c_ps m) (emit (at_mode c_wg m) s)) in
     do _ <- fmt phi;
-    let s := emit c_wg (emit c_text s) in
+    let s := emit (at_mode c_wg m) (emit c_text s) in
     setx s m (xloc + u + u + u)%Z.
 
   Definition add_loss (cx : dctx) (s : dst) (m : nat) (v : val) : res dst :=
@@ -177,9 +179,9 @@ Section Display.
     let l := ppv (d_pe cx) (d_vals cx) v in
     do xloc <- idx (xs s) m;
     do _ <- idx (d_ys cx) m;
-    let s := emit c_text (emit c_loss (emit c_wg s)) in
+    let s := emit c_text (emit (at_mode c_loss m) (emit (at_mode c_wg m) s)) in
     do _ <- fmt l;
-    let s := emit c_wg (emit c_text s) in
+    let s := emit (at_mode c_wg m) (emit c_text s) in
     setx s m (xloc + u + u + u)%Z.
 
   Definition add_bs (cx : dctx) (s : dst) (m1 m2 : nat) (v : val) : res dst :=
@@ -192,7 +194,7 @@ Section Display.
     do xloc <- maxZ (slice (xs s) a (S b));
     do s <- connect cx s a b xloc;
     do s <- wg_range cx no_alt s a (S b);
-    let s := emit c_text (emit c_bs s) in
+    let s := emit c_text (emit (at_mode c_bs a) s) in
     do _ <- fmt ref;
     let s := emit c_text s in
     do s <- wg_range cx no_alt s (S a) b;
@@ -210,7 +212,7 @@ Section Display.
     do xloc <- maxZ (slice (xs s) a (S b));
     do s <- connect cx s a b xloc;
     do s <- wg_range cx no_alt s a (S b);
-    let s := emit c_text (emit c_unitary s) in
+    let s := emit c_text (emit (at_mode c_unitary a) s) in
     out_range cx no_alt s a (S b) (xloc + u + (u + u) + u)%Z.
 
   Definition add_barrier (cx : dctx) (s : dst) (ms : list nat) : res dst :=
@@ -260,7 +262,7 @@ Section Display.
     do xloc <- maxZ (slice (xs s) a (S b));
     do s <- connect cx s a b xloc;
     do s <- wg_range cx (fun i => dmem hin (i - a)) s a (S b);
-    let s := emit c_text (emit c_group s) in
+    let s := emit c_text (emit (at_mode c_group a) s) in
     do s <- out_range cx (fun i => dmem hout (i - a)) s a (S b) (xloc + (u + extra) + (u + u) + (u + extra))%Z;
     add_heralds cx (map (fun kv => (fst kv + a, snd kv)) hin) (map (fun kv => (fst kv + a, snd kv)) hout) s.
 
